@@ -415,6 +415,7 @@ func (w *WSpec) run(b *built) {
 // recorder is an ordinary custom WorkflowProcess that notes what arrives on its in-port.
 type recorder struct {
 	sp.BaseProcess
+	reads bool // open every received file on receipt (what is handed on must be readable at the path it names)
 }
 
 func newRecorder(wf *sp.Workflow, name string) *recorder {
@@ -429,6 +430,11 @@ func (p *recorder) Run() {
 	defer p.CloseAllOutPorts()
 	for ip := range p.InPort("in").Chan {
 		vs.Note("recv:" + p.Name() + ":" + ip.Path())
+		if p.reads {
+			if _, err := vs.FSReadFile(ip.Path()); err != nil {
+				vs.Note("unreadable:" + p.Name() + ":" + ip.Path())
+			}
+		}
 	}
 }
 
